@@ -109,16 +109,21 @@ def make_inode0(rng, kind, inum, bs, extra=None):
     r32 = lambda: rng.randrange(1 << 32)
     if kind in (2, 9):
         size = rng.choice([0, 1, bs - 1, bs, bs + 1, 3 * bs, rng.randint(0, 6 * bs), rng.randint(0, 40 * bs)])
+        huge = rng.random() < 0.03                      # a size whose block list cannot be allocated (SQFS_ERROR_ALLOC)
         fi, fo = rng.choice([(0xFFFFFFFF, 0), (0xFFFFFFFF, 0xFFFFFFFF), (rng.randrange(5), rng.randrange(bs)), (3, 0xFFFFFFFF)])
         cnt = block_count(size, bs, fi, fo)
         blocks = b"".join(struct.pack("<I", rng.choice([0, 1 << 24 | bs, rng.randrange(1, bs)])) for _ in range(cnt))
+        if huge:
+            size = rng.choice([(1 << 32) - 1, 40 * (1 << 20) * bs, 32 * (1 << 20) * bs + bs * 20])
+            size = min(size, (1 << 32) - 1) if kind == 2 else size
         if kind == 2:
             return b + struct.pack("<IIII", r32(), fi, fo, size) + blocks, list(range(16 + 13, 16 + 16))
         return b + struct.pack("<QQQIIII", rng.randrange(1 << 40), size, rng.randrange(size + 1), rng.randint(1, 9), fi, fo,
                                rng.choice([0xFFFFFFFF, rng.randrange(9)])) + blocks, list(range(16 + 9, 16 + 16))
     if kind in (3, 10):
         tgt = bytes(rng.choice(b"abc/.-_xyz") for _ in range(rng.choice([1, 2, 9, 40, 300])))
-        out = b + struct.pack("<II", rng.randint(1, 4), len(tgt)) + tgt
+        tsz = len(tgt) if rng.random() > 0.03 else rng.choice([134217728 - 65, 134217728 - 64, 200000000, (1 << 32) - 1])
+        out = b + struct.pack("<II", rng.randint(1, 4), tsz) + tgt
         if kind == 10:
             out += struct.pack("<I", rng.choice([0xFFFFFFFF, rng.randrange(9)]))
         return out, list(range(16 + 5, 16 + 8))
@@ -378,7 +383,9 @@ def gen_xattr_episode(rng, nops):
                 val = bytes(rng.randrange(256) for _ in range(rng.choice([0, 1, 8, 9, 50, 300])))
                 stored.append(len(kv))
                 protected.update(range(len(kv) + 1, len(kv) + 4))
-                kv += struct.pack("<I", len(val)) + val
+                # rarely a size that cannot be allocated (SQFS_ERROR_ALLOC between the value header and the value)
+                vsz = len(val) if rng.random() > 0.02 else rng.choice([134217728 - 5, 134217728 - 4, 134217728 - 40, 300000000, (1 << 32) - 1])
+                kv += struct.pack("<I", vsz) + val
         sets.append((start, n, len(kv) - start))
     dmg = rng.random() < 0.3
     if dmg and kv:
